@@ -4,6 +4,7 @@ import (
 	"encoding/binary"
 	"math"
 	"sync"
+	"time"
 
 	"github.com/massnetorg/mass-core/logging"
 	"gopkg.in/karalabe/cookiejar.v2/collections/prque"
@@ -183,12 +184,23 @@ func (sk *SpaceKeeper) spacePlotter() {
 	}
 
 	var monitor = func(ws *WorkSpace, killMonitorCh chan struct{}) {
+		defer wg.Done()
 		select {
 		case <-sk.quit:
-			ws.StopPlot()
 		case <-killMonitorCh:
+			return
 		}
-		wg.Done()
+		// The keeper is stopping. The plot of this space may not have started yet when
+		// the signal arrives (StopPlot on a space that is not plotting does nothing), so
+		// keep asking until the plotter is done with the space.
+		for {
+			ws.StopPlot()
+			select {
+			case <-killMonitorCh:
+				return
+			case <-time.After(50 * time.Millisecond):
+			}
+		}
 	}
 
 	logging.CPrint(logging.INFO, "space plotter started", logging.LogFormat{"queue_length": sk.queue.Size()})
